@@ -343,7 +343,23 @@ CorrectLen(T, app) == Digits(Len(app) - BodyOff(T) - TrailerLen(T), 4)
 CsumFieldOf(T, app) == Ord(EndianOf(T), SubSeq(app, Len(app) - 3, Len(app)))
 CorrectCsum(T, app) == Alg(ChecksumAlg(T), Take(app, Len(app) - 4))
 
+(* Registry x frames: what the code does when the frame's checksum service *)
+(* is NOT registered - the encoder keeps the caller's checksum value (it    *)
+(* computes the length as usual).  C05 is stated for the start-up registry; *)
+(* this is the modelled behaviour outside that assumption.                  *)
+ExpectedEnc(T, v, registry) ==
+  LET E == EncMsg(T, v) IN
+  IF E.ok /\ T \in CsumTypes /\ ChecksumAlg(T) \notin registry
+  THEN [E EXCEPT !.bytes = Take(E.bytes, Len(E.bytes) - 4) \o Ord(EndianOf(T), v[CsumName(T)]),
+                 !.val = [E.val EXCEPT ![CsumName(T)] = v[CsumName(T)]]]
+  ELSE E
+
 (* w with the self-computed fields of a frame replaced by correct values   *)
+FixLenOnly(T, w) ==
+  IF T \in FrameTypes /\ Len(w) >= BodyOff(T) + TrailerLen(T)
+  THEN LET d == Ord(EndianOf(T), CorrectLen(T, w)) IN
+       [i \in 1..Len(w) |-> IF i > LenOff(T) /\ i <= LenOff(T) + 4 THEN d[i - LenOff(T)] ELSE w[i]]
+  ELSE w
 FixComputed(T, w) ==
   LET w1 == IF T \in FrameTypes /\ Len(w) >= BodyOff(T) + TrailerLen(T)
             THEN LET d == Ord(EndianOf(T), CorrectLen(T, w)) IN
